@@ -6,14 +6,366 @@ namespace EtkVerif
 namespace Blocks
 open Ops
 
-/-- The schedule invariant: whatever the schedule of `push`, `push_all`, `take`
-and `finish`, the blocks handed out, completed and in progress, in that order,
-partition exactly the instructions fed so far. -/
-theorem run_partition (t : OpTable) (h : List Ev) :
+/-! ### Abstract view of a run: finished blocks, block in progress, items fed -/
+
+/-- Blocks that are finished (handed out or waiting in `complete`), in order. -/
+def Run.done (r : Run) : List Block := r.out ++ r.sep.complete
+
+theorem Run.allBlocks_eq (r : Run) : r.allBlocks = r.done ++ r.sep.inProgress.toList := rfl
+
+/-- The block in progress after appending `instr` (a fresh block if there is none). -/
+def extend : Option Block → Nat → Disasm.Instr → Block
+  | some p, _, instr => ⟨p.offset, p.ops ++ [instr]⟩
+  | none, o, instr => ⟨o, [instr]⟩
+
+@[simp] theorem extend_some (p : Block) (o : Nat) (instr : Disasm.Instr) :
+    extend (some p) o instr = ⟨p.offset, p.ops ++ [instr]⟩ := rfl
+@[simp] theorem extend_none (o : Nat) (instr : Disasm.Instr) :
+    extend none o instr = ⟨o, [instr]⟩ := rfl
+
+/-- `Separator::push` on the abstract state. -/
+def pushAbs (t : OpTable) (done : List Block) (ip : Option Block) (o : Nat) (instr : Disasm.Instr) :
+    List Block × Option Block :=
+  if isJumpTarget t instr then (done ++ ip.toList, some ⟨o, [instr]⟩)
+  else if endsBlock t instr then (done ++ [extend ip o instr], none)
+  else (done, some (extend ip o instr))
+
+theorem step_push_abs (t : OpTable) (r : Run) (o : Nat) (instr : Disasm.Instr) :
+    (step t r (.push (o, instr))).done = (pushAbs t r.done r.sep.inProgress o instr).1 ∧
+    (step t r (.push (o, instr))).sep.inProgress = (pushAbs t r.done r.sep.inProgress o instr).2 ∧
+    (step t r (.push (o, instr))).fed = r.fed ++ [(o, instr)] := by
+  obtain ⟨⟨complete, ip⟩, fed, out, p⟩ := r
+  refine ⟨?_, ?_, rfl⟩
+  · cases ip <;> simp only [step, push, pushAbs, Run.done, extend] <;>
+      split <;> (try split) <;> simp
+  · cases ip <;> simp only [step, push, pushAbs, Run.done, extend] <;>
+      split <;> (try split) <;> simp
+
+theorem pushAll_fst_aux (t : OpTable) : ∀ (its : List Disasm.Item) (acc : Sep × Bool),
+    (its.foldl (fun (acc : Sep × Bool) it =>
+        let (s', a) := push t acc.1 it; (s', acc.2 || a)) acc).1 =
+      its.foldl (fun s it => (push t s it).1) acc.1 := by
+  intro its
+  induction its with
+  | nil => intro acc; rfl
+  | cons it its ih => intro acc; rw [List.foldl_cons, List.foldl_cons, ih]
+
+theorem pushAll_fst (t : OpTable) (s : Sep) (its : List Disasm.Item) :
+    (pushAll t s its).1 = its.foldl (fun s it => (push t s it).1) s :=
+  pushAll_fst_aux t its (s, false)
+
+/-- `push_all` is the same as pushing the items one at a time. -/
+theorem step_pushAll (t : OpTable) : ∀ (its : List Disasm.Item) (r : Run),
+    step t r (.pushAll its) = its.foldl (fun r it => step t r (.push it)) r := by
+  intro its
+  induction its with
+  | nil =>
+    intro r
+    obtain ⟨sep, fed, out, p⟩ := r
+    simp [step, pushAll]
+  | cons it its ih =>
+    intro r
+    rw [List.foldl_cons, ← ih]
+    simp only [step, pushAll_fst, List.foldl_cons, List.append_assoc, List.singleton_append]
+
+/-- Induction over schedules on the abstract state.  `allowFin` says whether
+`finish` may occur in the schedule. -/
+theorem foldl_abs (t : OpTable) (P : List Block → Option Block → List Disasm.Item → Prop)
+    (allowFin : Prop)
+    (hpush : ∀ done ip fed o instr, P done ip fed →
+      P (pushAbs t done ip o instr).1 (pushAbs t done ip o instr).2 (fed ++ [(o, instr)]))
+    (hfin : allowFin → ∀ done ip fed, P done ip fed → P (done ++ ip.toList) none fed) :
+    ∀ (h : List Ev) (r : Run), (∀ e ∈ h, e = Ev.finish → allowFin) →
+      P r.done r.sep.inProgress r.fed →
+      P (h.foldl (step t) r).done (h.foldl (step t) r).sep.inProgress (h.foldl (step t) r).fed := by
+  have push1 : ∀ (r : Run) (it : Disasm.Item), P r.done r.sep.inProgress r.fed →
+      P (step t r (.push it)).done (step t r (.push it)).sep.inProgress (step t r (.push it)).fed := by
+    intro r it hp
+    obtain ⟨o, instr⟩ := it
+    obtain ⟨h₁, h₂, h₃⟩ := step_push_abs t r o instr
+    rw [h₁, h₂, h₃]
+    exact hpush _ _ _ o instr hp
+  have pushN : ∀ (its : List Disasm.Item) (r : Run), P r.done r.sep.inProgress r.fed →
+      P (its.foldl (fun r it => step t r (.push it)) r).done
+        (its.foldl (fun r it => step t r (.push it)) r).sep.inProgress
+        (its.foldl (fun r it => step t r (.push it)) r).fed := by
+    intro its
+    induction its with
+    | nil => intro r hp; exact hp
+    | cons it its ih => intro r hp; rw [List.foldl_cons]; exact ih _ (push1 r it hp)
+  intro h
+  induction h with
+  | nil => intro r _ hp; exact hp
+  | cons e h ih =>
+    intro r hf hp
+    rw [List.foldl_cons]
+    apply ih _ (fun e' he' => hf e' (List.mem_cons_of_mem _ he'))
+    cases e with
+    | push it => exact push1 r it hp
+    | pushAll its => rw [step_pushAll]; exact pushN its r hp
+    | take =>
+      obtain ⟨⟨complete, ip⟩, fed, out, p⟩ := r
+      simpa [step, take, Run.done] using hp
+    | finish =>
+      have af : allowFin := hf _ (List.mem_cons_self ..) rfl
+      obtain ⟨⟨complete, ip⟩, fed, out, p⟩ := r
+      cases complete with
+      | nil =>
+        have := hfin af _ _ _ hp
+        cases ip with
+        | none => simpa [step, finish, Run.done] using this
+        | some b => simpa [step, finish, Run.done] using this
+      | cons c cs => simpa [step, finish, Run.done] using hp
+
+theorem run_abs (t : OpTable) (P : List Block → Option Block → List Disasm.Item → Prop)
+    (allowFin : Prop) (h0 : P [] none [])
+    (hpush : ∀ done ip fed o instr, P done ip fed →
+      P (pushAbs t done ip o instr).1 (pushAbs t done ip o instr).2 (fed ++ [(o, instr)]))
+    (hfin : allowFin → ∀ done ip fed, P done ip fed → P (done ++ ip.toList) none fed)
+    (h : List Ev) (hf : ∀ e ∈ h, e = Ev.finish → allowFin) :
+    P (run t h).done (run t h).sep.inProgress (run t h).fed :=
+  foldl_abs t P allowFin hpush hfin h {} hf h0
+
+/-! ### Partition -/
+
+theorem run_flat (t : OpTable) (h : List Ev) :
+    (run t h).allBlocks.flatMap (·.ops) = (run t h).fed.map (·.2) := by
+  rw [Run.allBlocks_eq]
+  refine run_abs t (fun done ip fed => (done ++ ip.toList).flatMap (·.ops) = fed.map (·.2)) True
+    rfl ?_ ?_ h (fun _ _ _ => trivial)
+  · intro done ip fed o instr hp
+    simp only [List.flatMap_append, List.map_append, List.map_cons, List.map_nil] at hp ⊢
+    rw [← hp]
+    unfold pushAbs
+    cases ip <;> split <;> (try split) <;> simp
+  · intro _ done ip fed hp
+    simpa using hp
+
+/-- The block in progress is non-empty, has a jump target at most in front and
+contains no block-ending instruction. -/
+def Open (t : OpTable) (p : Block) : Prop :=
+  p.ops ≠ [] ∧ (∀ i ∈ p.ops.tail, isJumpTarget t i = false) ∧ (∀ i ∈ p.ops, endsBlock t i = false)
+
+theorem Open.shaped {t : OpTable} {p : Block} (h : Open t p) : p.Shaped t :=
+  ⟨h.1, h.2.1, fun i hi => h.2.2 i (List.dropLast_subset _ hi)⟩
+
+/-- No jump target ends a block (true of every EVM table: `jumpdest` neither
+jumps nor halts). -/
+def JtNotEnd (t : OpTable) : Prop := ∀ i, isJumpTarget t i = true → endsBlock t i = false
+
+theorem run_shaped (t : OpTable) (hjt : JtNotEnd t) (h : List Ev) :
+    ∀ b ∈ (run t h).allBlocks, b.Shaped t := by
+  rw [Run.allBlocks_eq]
+  have key := run_abs t
+    (fun done ip _ => (∀ b ∈ done, b.Shaped t) ∧ (∀ p, ip = some p → Open t p)) True
+    ⟨fun _ h => (by cases h), fun _ h => (by cases h)⟩ ?_ ?_ h (fun _ _ _ => trivial)
+  · intro b hb
+    rcases List.mem_append.mp hb with hb | hb
+    · exact key.1 b hb
+    · exact (key.2 b (by simpa using hb)).shaped
+  · intro done ip fed o instr ⟨hd, hip⟩
+    have hall : ∀ b ∈ done ++ ip.toList, b.Shaped t := by
+      intro b hb
+      rcases List.mem_append.mp hb with hb | hb
+      · exact hd b hb
+      · exact (hip b (by simpa using hb)).shaped
+    unfold pushAbs
+    by_cases hj : isJumpTarget t instr = true
+    · rw [if_pos hj]
+      refine ⟨hall, ?_⟩
+      intro p hp
+      cases hp
+      refine ⟨by simp, by simp, ?_⟩
+      intro i hi
+      rw [List.mem_singleton] at hi
+      subst hi
+      exact hjt i hj
+    · rw [if_neg hj]
+      have hj' : isJumpTarget t instr = false := by simpa using hj
+      -- the extended block, before looking at `endsBlock`
+      have hb : ∀ b : Block, b = extend ip o instr →
+          b.ops ≠ [] ∧ (∀ i ∈ b.ops.tail, isJumpTarget t i = false) ∧
+          (∀ i ∈ b.ops.dropLast, endsBlock t i = false) ∧ b.ops.getLast? = some instr := by
+        intro b hb
+        cases ip with
+        | none =>
+          subst hb
+          simp
+        | some p =>
+          subst hb
+          obtain ⟨hne, htl, hen⟩ := hip p rfl
+          refine ⟨by simp, ?_, ?_, by simp⟩
+          · intro i hi
+            simp only [extend_some] at hi
+            rw [List.tail_append_of_ne_nil hne] at hi
+            rcases List.mem_append.mp hi with hi | hi
+            · exact htl i hi
+            · rw [List.mem_singleton] at hi; subst hi; exact hj'
+          · intro i hi
+            simp only [extend_some] at hi
+            rw [List.dropLast_concat] at hi
+            exact hen i hi
+      obtain ⟨hne, htl, hdl, hlast⟩ := hb _ rfl
+      generalize extend ip o instr = b at hne htl hdl hlast
+      by_cases he : endsBlock t instr = true
+      · simp only [if_pos he]
+        refine ⟨?_, fun p hp => by cases hp⟩
+        intro c hc
+        rcases List.mem_append.mp hc with hc | hc
+        · exact hd c hc
+        · rw [List.mem_singleton] at hc; subst hc
+          exact ⟨hne, htl, hdl⟩
+      · simp only [if_neg he]
+        refine ⟨hd, ?_⟩
+        intro p hp
+        cases hp
+        refine ⟨hne, htl, ?_⟩
+        intro i hi
+        have hsplit := List.dropLast_concat_getLast hne
+        rw [← hsplit] at hi
+        rcases List.mem_append.mp hi with hi | hi
+        · exact hdl i hi
+        · rw [List.mem_singleton] at hi
+          have : b.ops.getLast hne = instr := by
+            have := List.getLast?_eq_some_getLast hne
+            rw [hlast] at this
+            exact (Option.some.inj this).symm
+          rw [hi, this]
+          simpa using he
+  · intro _ done ip fed ⟨hd, hip⟩
+    refine ⟨?_, fun p hp => by cases hp⟩
+    intro b hb
+    rcases List.mem_append.mp hb with hb | hb
+    · exact hd b hb
+    · exact (hip b (by simpa using hb)).shaped
+
+/-- The partition property, for tables in which no jump target ends a block. -/
+theorem run_partition_of_jtNotEnd (t : OpTable) (hjt : JtNotEnd t) (h : List Ev) :
     let r := run t h
     r.allBlocks.flatMap (·.ops) = r.fed.map (·.2) ∧
-    (∀ b ∈ r.allBlocks, b.Shaped t) := by
-  sorry
+    (∀ b ∈ r.allBlocks, b.Shaped t) :=
+  ⟨run_flat t h, run_shaped t hjt h⟩
+
+/-- Boolean check of `JtNotEnd` on a concrete table (bytes beyond the table get
+the default row, whose flags are all `false`). -/
+theorem jtNotEnd_of_all (t : OpTable)
+    (h : (t.all fun r => !(r.jt && (r.jump || r.exit))) = true) : JtNotEnd t := by
+  intro i hj
+  unfold isJumpTarget at hj
+  unfold endsBlock
+  have hmem : rowOf t i.op ∈ t ∨ rowOf t i.op = default := by
+    unfold rowOf
+    by_cases hlt : i.op < t.length
+    · left
+      have : t.getD i.op default = t[i.op] := by simp [List.getD, hlt]
+      rw [this]
+      exact List.getElem_mem hlt
+    · right
+      simp [List.getD, Nat.le_of_not_lt hlt]
+  rcases hmem with hm | hd
+  · have := List.all_eq_true.mp h _ hm
+    rw [hj] at this
+    simpa using this
+  · rw [hd] at hj
+    cases hj
+
+/-- `run_partition` below is FALSE for an arbitrary table: if some opcode is
+flagged both as a jump target and as block-ending (impossible for a real EVM
+table, but not excluded by `OpTable`), `push` opens a block with it and then
+keeps appending, so the block-ending instruction is not last.  Corrected
+statement: `run_partition_of_jtNotEnd` (the first conjunct alone holds
+unconditionally: `run_flat`). -/
+theorem run_partition_counterexample :
+    ¬ ∀ (t : OpTable) (h : List Ev),
+      (let r := run t h
+       r.allBlocks.flatMap (·.ops) = r.fed.map (·.2) ∧
+       (∀ b ∈ r.allBlocks, b.Shaped t)) := by
+  intro H
+  have h₁ := (H [⟨0, [], 0, 0, 0, true, false, true, 1, 0, 0, []⟩]
+    [.push (0, ⟨0, []⟩), .push (1, ⟨1, []⟩)]).2 ⟨0, [⟨0, []⟩, ⟨1, []⟩]⟩ (by decide)
+  have h₂ := h₁.2.2 ⟨0, []⟩ (by decide)
+  revert h₂
+  decide
+
+/-! ### Offsets -/
+
+/-- Total encoded length of the items fed. -/
+def lenSum (fed : List Disasm.Item) : Nat := (fed.map (·.2.len)).sum
+
+/-- Total encoded length of a list of blocks. -/
+def total (l : List Block) : Nat := (l.map Block.byteLen).sum
+
+@[simp] theorem lenSum_nil : lenSum [] = 0 := rfl
+@[simp] theorem lenSum_cons (it : Disasm.Item) (fed : List Disasm.Item) :
+    lenSum (it :: fed) = it.2.len + lenSum fed := by simp [lenSum]
+@[simp] theorem lenSum_snoc (fed : List Disasm.Item) (it : Disasm.Item) :
+    lenSum (fed ++ [it]) = lenSum fed + it.2.len := by
+  induction fed with
+  | nil => simp
+  | cons x fed ih => simp [ih, Nat.add_assoc]
+
+@[simp] theorem total_nil : total [] = 0 := rfl
+@[simp] theorem total_cons (b : Block) (l : List Block) :
+    total (b :: l) = b.byteLen + total l := by simp [total]
+@[simp] theorem total_append (l m : List Block) : total (l ++ m) = total l + total m := by
+  induction l with
+  | nil => simp
+  | cons x l ih => simp [ih, Nat.add_assoc]
+
+@[simp] theorem byteLen_single (o : Nat) (i : Disasm.Instr) :
+    Block.byteLen ⟨o, [i]⟩ = i.len := by simp [Block.byteLen]
+@[simp] theorem byteLen_snoc (o : Nat) (ops : List Disasm.Instr) (i : Disasm.Instr) :
+    Block.byteLen ⟨o, ops ++ [i]⟩ = Block.byteLen ⟨o, ops⟩ + i.len := by
+  simp only [Block.byteLen]
+  induction ops with
+  | nil => simp
+  | cons x ops ih => simp only [List.cons_append, List.map_cons, List.sum_cons, ih, Nat.add_assoc]
+
+theorem chained_snoc : ∀ (fed : List Disasm.Item) (off o : Nat) (i : Disasm.Instr),
+    Chained off (fed ++ [(o, i)]) → Chained off fed ∧ o = off + lenSum fed := by
+  intro fed
+  induction fed with
+  | nil => intro off o i h; exact ⟨trivial, by simpa using h.1⟩
+  | cons x fed ih =>
+    intro off o i h
+    obtain ⟨o', i'⟩ := x
+    obtain ⟨h₁, h₂⟩ := h
+    obtain ⟨h₃, h₄⟩ := ih _ _ _ h₂
+    exact ⟨⟨h₁, h₃⟩, by rw [h₄, lenSum_cons, Nat.add_assoc]⟩
+
+theorem blocksChained_append : ∀ (l : List Block) (off : Nat) (m : List Block),
+    BlocksChained off (l ++ m) ↔ BlocksChained off l ∧ BlocksChained (off + total l) m := by
+  intro l
+  induction l with
+  | nil => intro off m; simp [BlocksChained]
+  | cons b l ih =>
+    intro off m
+    simp only [List.cons_append, BlocksChained, ih, total_cons, Nat.add_assoc, and_assoc]
+
+theorem blocksChained_single (off : Nat) (b : Block) :
+    BlocksChained off [b] ↔ b.offset = off := by simp [BlocksChained]
+
+theorem extend_offsets (done : List Block) (ip : Option Block) (o off : Nat) (instr : Disasm.Instr)
+    (hb : BlocksChained off (done ++ ip.toList)) (ho : o = off + total (done ++ ip.toList)) :
+    BlocksChained off (done ++ [extend ip o instr]) := by
+  cases ip with
+  | none =>
+    simp only [Option.toList_none, List.append_nil] at hb ho
+    rw [blocksChained_append, blocksChained_single]
+    exact ⟨hb, ho⟩
+  | some p =>
+    simp only [Option.toList_some] at hb
+    rw [blocksChained_append, blocksChained_single] at hb ⊢
+    exact hb
+
+theorem extend_total (done : List Block) (ip : Option Block) (o : Nat) (instr : Disasm.Instr) :
+    total (done ++ [extend ip o instr]) = total (done ++ ip.toList) + instr.len := by
+  cases ip with
+  | none => simp
+  | some p =>
+    have hp : Block.byteLen ⟨p.offset, p.ops⟩ = p.byteLen := rfl
+    simp only [extend_some, Option.toList_some, total_append, total_cons, total_nil, byteLen_snoc, hp]
+    omega
 
 /-- Offsets: if the instructions fed carry chained offsets (as the disassembler
 produces them), block offsets are chained by block size; provided `finish` did
@@ -21,22 +373,157 @@ not cut a block short (no `finish` in the schedule) the blocks are also maximal.
 theorem run_offsets (t : OpTable) (h : List Ev) (off : Nat)
     (hc : Chained off (run t h).fed) :
     BlocksChained off (run t h).allBlocks := by
-  sorry
+  rw [Run.allBlocks_eq]
+  have key := run_abs t
+    (fun done ip fed => total (done ++ ip.toList) = lenSum fed ∧
+      ∀ off, Chained off fed → BlocksChained off (done ++ ip.toList)) True
+    ⟨rfl, fun _ _ => trivial⟩ ?_ ?_ h (fun _ _ _ => trivial)
+  · exact key.2 off hc
+  · intro done ip fed o instr ⟨htot, hch⟩
+    have hbc : ∀ off, Chained off (fed ++ [(o, instr)]) →
+        BlocksChained off (done ++ ip.toList) ∧ o = off + total (done ++ ip.toList) := by
+      intro off hc
+      obtain ⟨h₁, h₂⟩ := chained_snoc fed off o instr hc
+      exact ⟨hch off h₁, by rw [htot]; exact h₂⟩
+    unfold pushAbs
+    by_cases hj : isJumpTarget t instr = true
+    · simp only [if_pos hj, Option.toList_some]
+      refine ⟨by rw [total_append, total_cons, total_nil, byteLen_single, htot, lenSum_snoc,
+        Nat.add_zero], ?_⟩
+      intro off hc
+      obtain ⟨h₁, h₂⟩ := hbc off hc
+      rw [blocksChained_append, blocksChained_single]
+      exact ⟨h₁, h₂⟩
+    · by_cases he : endsBlock t instr = true
+      · simp only [if_neg hj, if_pos he, Option.toList_none, List.append_nil]
+        refine ⟨by rw [extend_total, htot, lenSum_snoc], ?_⟩
+        intro off hc
+        obtain ⟨h₁, h₂⟩ := hbc off hc
+        exact extend_offsets done ip o off instr h₁ h₂
+      · simp only [if_neg hj, if_neg he, Option.toList_some]
+        refine ⟨by rw [extend_total, htot, lenSum_snoc], ?_⟩
+        intro off hc
+        obtain ⟨h₁, h₂⟩ := hbc off hc
+        exact extend_offsets done ip o off instr h₁ h₂
+  · intro _ done ip fed hp
+    simpa using hp
+
+/-! ### Maximality -/
+
+/-- Consecutive blocks `b`, `c` are separated for a reason. -/
+def Link (t : OpTable) (b c : Block) : Prop :=
+  (∃ i, b.ops.getLast? = some i ∧ endsBlock t i = true) ∨
+  (∃ i, c.ops.head? = some i ∧ isJumpTarget t i = true)
+
+/-- The last finished block (if any) ends with a block-ending instruction. -/
+def Closed (t : OpTable) (l : List Block) : Prop :=
+  ∀ b, l.getLast? = some b → ∃ i, b.ops.getLast? = some i ∧ endsBlock t i = true
+
+theorem maximal_snoc (t : OpTable) : ∀ (l : List Block) (c : Block),
+    Maximal t (l ++ [c]) ↔ Maximal t l ∧ ∀ b, l.getLast? = some b → Link t b c := by
+  intro l
+  induction l with
+  | nil => intro c; simp [Maximal]
+  | cons b l ih =>
+    intro c
+    cases l with
+    | nil => simp [Maximal, Link]
+    | cons b' rest =>
+      have ih' := ih c
+      simp only [List.cons_append] at ih' ⊢
+      simp only [Maximal, ih', List.getLast?_cons_cons, and_assoc]
+
+theorem extend_getLast (ip : Option Block) (o : Nat) (instr : Disasm.Instr) :
+    (extend ip o instr).ops.getLast? = some instr := by
+  cases ip <;> simp
 
 theorem run_maximal (t : OpTable) (h : List Ev)
     (hnf : ∀ e ∈ h, (match e with | Ev.finish => true | _ => false) = false) :
     Maximal t (run t h).allBlocks := by
-  sorry
+  rw [Run.allBlocks_eq]
+  have key := run_abs t
+    (fun done ip _ => Maximal t (done ++ ip.toList) ∧ (ip = none → Closed t done)) False
+    ⟨trivial, fun _ b hb => (by simp at hb)⟩ ?_ (fun hF => hF.elim) h ?_
+  · exact key.1
+  · intro done ip fed o instr ⟨hmax, hcl⟩
+    unfold pushAbs
+    by_cases hj : isJumpTarget t instr = true
+    · simp only [if_pos hj, Option.toList_some]
+      refine ⟨?_, fun hn => by cases hn⟩
+      rw [maximal_snoc]
+      exact ⟨hmax, fun b _ => Or.inr ⟨instr, rfl, hj⟩⟩
+    · -- appending to the block in progress keeps it linked to its predecessor
+      have hext : Maximal t (done ++ [extend ip o instr]) := by
+        rw [maximal_snoc]
+        cases ip with
+        | none =>
+          simp only [Option.toList_none, List.append_nil] at hmax
+          exact ⟨hmax, fun b hb => Or.inl (hcl rfl b hb)⟩
+        | some p =>
+          simp only [Option.toList_some] at hmax
+          rw [maximal_snoc] at hmax
+          refine ⟨hmax.1, fun b hb => ?_⟩
+          rcases hmax.2 b hb with hl | ⟨i, hi, hji⟩
+          · exact Or.inl hl
+          · refine Or.inr ⟨i, ?_, hji⟩
+            simp only [extend_some, List.head?_append, hi, Option.some_or]
+      by_cases he : endsBlock t instr = true
+      · simp only [if_neg hj, if_pos he, Option.toList_none, List.append_nil]
+        refine ⟨hext, fun _ b hb => ?_⟩
+        rw [List.getLast?_concat] at hb
+        cases hb
+        exact ⟨instr, extend_getLast ip o instr, he⟩
+      · simp only [if_neg hj, if_neg he, Option.toList_some]
+        exact ⟨hext, fun hn => by cases hn⟩
+  · intro e he hfin
+    subst hfin
+    have := hnf _ he
+    simp at this
+
+/-! ### `finish` does not panic -/
+
+theorem no_panic_aux (t : OpTable) : ∀ (h : List Ev) (r : Run), r.panicked = false →
+    (∀ rest, h = Ev.finish :: rest → r.sep.complete = []) → FinishAfterTake h →
+    (h.foldl (step t) r).panicked = false := by
+  intro h
+  induction h with
+  | nil => intro r hp _ _; exact hp
+  | cons e h ih =>
+    intro r hp hc hf
+    rw [List.foldl_cons]
+    apply ih
+    · cases e with
+      | push it => exact hp
+      | pushAll its => exact hp
+      | take => exact hp
+      | finish =>
+        have hce := hc h rfl
+        obtain ⟨⟨complete, ip⟩, fed, out, p⟩ := r
+        simp only at hce hp
+        subst hce
+        cases ip <;> simpa [step, finish] using hp
+    · intro rest hrest
+      subst hrest
+      have h₁ := hf.1 rfl
+      cases e with
+      | take => rfl
+      | push it => simp at h₁
+      | pushAll its => simp at h₁
+      | finish => simp at h₁
+    · cases h with
+      | nil => trivial
+      | cons e₂ rest => exact hf.2
 
 /-- `finish` panics only when completed blocks have not been taken. -/
 theorem run_no_panic (t : OpTable) (h : List Ev) (hf : FinishAfterTake h) :
-    (run t h).panicked = false := by
-  sorry
+    (run t h).panicked = false :=
+  no_panic_aux t h {} rfl (fun _ _ => rfl) hf
 
 /-- With a consistent table, `BasicBlock::size` is the encoded length. -/
 theorem size_eq_byteLen (t : OpTable) (b : Block)
     (hs : ∀ i ∈ b.ops, sizeOf t i.op = i.len) : b.size t = b.byteLen := by
-  sorry
+  unfold Block.size Block.byteLen
+  rw [List.map_congr_left hs]
 
 end Blocks
 end EtkVerif
